@@ -76,6 +76,27 @@ pub fn rerun(path: &str, dbg: bool, out: &str) {
             i += 1;
             continue;
         }
+        if op == "convert" && (Kind::from_name(ev["x"]["k"].as_str().unwrap_or("")).is_none() || (ev["y"]["cl"] != "-" && Kind::from_name(ev["y"]["k"].as_str().unwrap_or("")).is_none())) {
+            // a conversion between instantiations outside the kind matrix (drive_c12_wide): run that driver
+            // in both scopes and keep the events with this source type, target type, bits and form
+            let mut n = 0u64;
+            let mut found = false;
+            for quick in [true, false] {
+                let tt = Tier { quick, seed: 1, dbg };
+                for e2 in crate::drive::c12_wide_events(&tt, &mut n) {
+                    if !found && e2["x"]["k"] == ev["x"]["k"] && e2["y"]["k"] == ev["y"]["k"] && e2["x"]["b"] == ev["x"]["b"] && e2["a"] == ev["a"] {
+                        outv.push(e2);
+                        found = true;
+                    }
+                }
+            }
+            if !found {
+                eprintln!("HARNESS-ERROR the wide conversion of the replay file is not among the driven ones");
+                std::process::exit(2);
+            }
+            i += 1;
+            continue;
+        }
         if op.starts_with("it_") {
             // a whole iterator session: it_new .. (it_end | it_count | it_last | end of file)
             let mut j = i;
